@@ -170,6 +170,30 @@ fn same_rule(a: &Rule, b: &Rule) -> bool {
 
 pub const K_FLOAT_PRINT: &str = "C09-integral-float-prints-as-integer";
 pub const K_SERIALIZE_DROPS: &str = "C09-serializable-term-drops-bool-function-vector";
+/// still open: a vector literal is stored as `_` (the repository's own unit test pins that mapping)
+pub const K_VECTOR_PLACEHOLDER: &str = "C09-vector-literal-stored-as-placeholder";
+
+/// `VectorLiteral([..])` -> `Placeholder` in a Debug rendering
+fn vectors_as_placeholders(dbg: &str) -> String {
+    let mut out = String::new();
+    let mut rest = dbg;
+    while let Some(i) = rest.find("VectorLiteral([") {
+        out.push_str(&rest[..i]);
+        let tail = &rest[i..];
+        match tail.find("])") {
+            Some(j) => {
+                out.push_str("Placeholder");
+                rest = &tail[j + 2..];
+            }
+            None => {
+                rest = tail;
+                break;
+            }
+        }
+    }
+    out.push_str(rest);
+    out
+}
 
 fn mentions_integral_float(r: &Rule) -> bool {
     let s = format!("{r:?}");
@@ -223,7 +247,10 @@ pub fn check_text(_ctx: &Ctx, c: &TCase, obs: &mut Obs) -> CheckResult {
             let r3 = back.to_rule();
             if !same_rule(&rule, &r3) {
                 let mut f = Fail::new("serialized_rule_differs", format!("source: {}\nparsed:     {rule:?}\nafter JSON: {r3:?}", c.text));
-                if mentions_unserializable(&rule) {
+                if vectors_as_placeholders(&format!("{rule:?}")) == format!("{r3:?}") {
+                    // exactly the vector literals became `_`, everything else survived
+                    f = f.known(K_VECTOR_PLACEHOLDER);
+                } else if mentions_unserializable(&rule) {
                     f = f.known(K_SERIALIZE_DROPS);
                 }
                 return Err(f);
